@@ -128,6 +128,12 @@ func (e *Engine) refine(st *State, cv AbsVal, cond ssa.Value, truth bool) {
 				common := xv.byteSet().and(yv.byteSet())
 				e.refineByteVal(st, cv.cmpX, common)
 				e.refineByteVal(st, cv.cmpY, common)
+				if xv.k == vByte && yv.k == vByte && xv.linked && yv.linked && xv.coord != yv.coord {
+					if st.eqc == nil {
+						st.eqc = map[int]int{}
+					}
+					st.eqc[xv.coord], st.eqc[yv.coord] = yv.coord, xv.coord
+				}
 			} else {
 				if b, ok := yv.byteSet().single(); ok {
 					e.refineByteVal(st, cv.cmpX, bsOf(b).not())
@@ -206,9 +212,26 @@ func (e *Engine) refine(st *State, cv AbsVal, cond ssa.Value, truth bool) {
 		case kHeapRef:
 			if (cv.cmpOp == "==") == truth {
 				st.heap[xv.atom] = intVal(cv.cmpK)
+			} else if cv.cmpK == 0 && (cv.cmpOp == "==" || cv.cmpOp == "!=") && isNilable(cv.cmpX.Type()) {
+				st.heap[xv.atom] = intVal(1) // known non-nil
+			}
+			if xv.atom == e.cfg.ErrPath {
+				if c, ok := st.heap[xv.atom].constInt(); ok && c == 1 {
+					st.errSet = 1 // an error is recorded (observed by the code itself)
+				} else if ok {
+					st.errSet = 2
+				}
 			}
 		}
 	}
+}
+
+func isNilable(t types.Type) bool {
+	switch t.Underlying().(type) {
+	case *types.Interface, *types.Pointer, *types.Slice, *types.Map, *types.Signature, *types.Chan:
+		return true
+	}
+	return false
 }
 
 func cmpStr(a int64, op string, b int64) bool {
@@ -1145,6 +1168,12 @@ func (e *Engine) summaries(callee *ssa.Function, st *State, args []AbsVal) []sum
 	for k, v := range st.bytes {
 		proj.bytes[k] = v
 	}
+	if len(st.eqc) > 0 {
+		proj.eqc = map[int]int{}
+		for k, v := range st.eqc {
+			proj.eqc[k] = v
+		}
+	}
 	for k, v := range st.atLen {
 		proj.atLen[k] = v
 	}
@@ -1169,6 +1198,9 @@ func (e *Engine) summaries(callee *ssa.Function, st *State, args []AbsVal) []sum
 		fmt.Fprintf(&sb, "%d:%x,", k, proj.bytes[k])
 	}
 	var ss []string
+	for k, v := range proj.eqc {
+		ss = append(ss, fmt.Sprintf("q%d=%d", k, v))
+	}
 	for k := range proj.atLen {
 		ss = append(ss, "a"+k)
 	}
@@ -1266,6 +1298,13 @@ func (e *Engine) applySummary(s *State, x summary, usesL bool) {
 	for k, v := range ex.bytes {
 		s.bytes[k] = v
 	}
+	s.eqc = nil
+	if len(ex.eqc) > 0 {
+		s.eqc = map[int]int{}
+		for k, v := range ex.eqc {
+			s.eqc[k] = v
+		}
+	}
 	// refinements of still-linked caller bytes
 	for v, avP := range s.vals {
 		if avP.k == vByte && avP.linked {
@@ -1288,6 +1327,9 @@ func (e *Engine) applySummary(s *State, x summary, usesL bool) {
 		s.heap[k] = v
 	}
 	s.errSet, s.havoc = ex.errSet, ex.havoc
+	if ex.errMsg != "" {
+		s.errMsg = ex.errMsg
+	}
 	s.stale = ex.stale
 	s.lex, s.lexKnown = ex.lex, ex.lexKnown
 	if moved {
